@@ -1031,7 +1031,7 @@ Definition ok_op_w (s : state) (o : op) : Prop :=
 
 Lemma link_ok_of_top : forall s x, InvA s -> InvM s -> link_top s x -> link_ok s x.
 Proof.
-  intros s x HA H [Ltop Lfree]. split; [|split; [|split]].
+  intros s x HA H [Ltop Lfree]. split; [|split; [|split; [|split]]].
   - exact Ltop.
   - intros u g Hin. pose proof (m_pmux s H u g x Hin) as P. split; [exact P|].
     assert (Hmem : memb x (usigs s u) = true) by (apply (m_usigs s H); apply (m_in s H u g x Hin)). split; [exact Hmem|].
@@ -1048,6 +1048,13 @@ Proof.
     destruct (ugids s u x) as [ids|] eqn:Ei; [|discriminate]. inversion E; subst gs.
     destruct (m_ids s H u x ids Ei) as (_ & Hnd & _ & Hval & _). apply NoDup_map_to_nat; [exact Hnd|]. intros g Hg. apply (Hval g Hg).
   - exact Lfree.
+  - intros u gs P E g Hg. unfold groups_of in E. destruct (ufixed s u x) eqn:F.
+    + inversion E; subst gs. apply in_seq in Hg. destruct (m_fixed s H u x F) as [_ Hall]. apply Hall.
+      destruct (m_fixed_mux s H u x F) as [Hmx Hu]. unfold is_mux in Hmx. unfold mux_count in Hg.
+      destruct (kind s u) as [| |c gsz] eqn:K; try discriminate. destruct (m_len s H u c gsz K Hu) as [El _]. lia.
+    + destruct (ugids s u x) as [ids|] eqn:Ei; [|discriminate]. inversion E; subst gs.
+      destruct (m_ids s H u x ids Ei) as (_ & _ & _ & Hval & Hiff). apply in_map_iff in Hg. destruct Hg as [z [<- Hz]].
+      apply Hiff. destruct (Hval z Hz) as [Hz0 _]. rewrite Z2Nat.id by exact Hz0. exact Hz.
 Qed.
 
 Lemma ok_op_of_w : forall s o, InvA s -> InvM s -> ok_op_w s o -> ok_op s o.
